@@ -8,7 +8,7 @@ CONSTANTS
   NS2 = 200
   NS3 = 100
   NSBIG = 40
-  NCAP = 30
+  NCAP = 10
   HOF = 2
   MAXD = 1
   MAXDSLOW = 1
